@@ -275,6 +275,28 @@ def step (s : DS) (toks : List String) : DS × String :=
               if !s.env.isWritable tkey then (s, showErr .expectedWritable ++ " cpis=-")
               else out (cleanupBorsh s.env ty op who tkey (some v) st0)
     | _, _, _ => (s, "bad-op")
+  | ["set", order, opName, fkey, rkey, tkey] =>
+    let op? : Option CleanOp := match opName with
+      | "normalize" => some .normalize
+      | "refund" => some .refund
+      | "receive" => some .receive
+      | "close" => some .close
+      | _ => none
+    let order? : Option Order := match order with
+      | "fr" => some .funderFirst
+      | "rf" => some .recipientFirst
+      | _ => none
+    match order?, op?, parseKey fkey, parseKey rkey, parseKey tkey, tyOf "zc16" with
+    | some order, some op, some fk, some rk, some tk, some ty =>
+      if !s.declared fk ∨ !s.declared rk ∨ !s.declared tk then (s, "bad-op") else
+      let s := freeze s
+      let r := runSet s.env ty order op fk rk tk { w := s.w, log := [] }
+      let s := { s with w := r.2.w }
+      match r.1 with
+      | .ok () => (s, "ok cpis=" ++ showLog r.2.log)
+      | .err e => (s, showErr e ++ " cpis=" ++ showLog r.2.log)
+      | .panic => (s, "panic cpis=" ++ showLog r.2.log)
+    | _, _, _, _, _, _ => (s, "bad-op")
   | ["world"] => (freeze s, showWorld s)
   | _ => (s, "bad-op")
 
